@@ -1,7 +1,207 @@
-/- C02 — placeholder, theorems follow. -/
-import SkNet.Model.WL
-import SkNet.Spec.WL
+/-
+C02 — Renumbering the nodes only renumbers the results.
+
+Theorems about the model of the Weisfeiler-Lehman kernel (`SkNet/Model/WL.lean`, tied to
+weisfeiler_lehman_core.pyx by exact `run` lines with numpy's own `powers` array) against colour refinement
+specified without hashes, sorting or colour numbers (`SkNet/Spec/WL.lean`), and equivariance under
+renumbering for refinement, for the WL partition and for hop distances (C10's model).
+Equivariance of the remaining algorithms of the property is evaluated on the implementation by the harness
+(f(P A Pᵀ) = P f(A)), and proved per model in the property files of C04, C06, C11, C13, C14 where available.
+-/
+import SkNet.Lemmas.WL
+import SkNet.Properties.C10
+
 namespace SkNet.C02
 open SkNet SkNet.WL
-theorem nbrs_nil (u : Nat) : nbrs [] u = [] := by simp [nbrs]
+
+attribute [-simp] List.getD_eq_getElem?_getD
+
+/-! ## the kernel against colour refinement -/
+
+/-- **wl_round_refines**. One iteration of the kernel's `while` loop refines exactly one level: if the
+current colours group the nodes as round `k` of colour refinement does, the new colours group them as
+round `k+1` does — for every graph, with any hash that identifies exactly the permutations of a colour
+list (exact arithmetic), any tie order of the sort. -/
+theorem wl_round_refines {H : Type} {ops : HashOps H} (hx : ExactOps ops) (adj : List (List Nat))
+    (hwf : WFAdj adj) (k : Nat) (labels : List Nat) (hL : Groups adj k labels) :
+    Groups adj (k+1) (round ops adj labels).1 :=
+  round_groups hx adj hwf k labels hL
+
+/-- **wl_partition_eq_refinement**. `color_weisfeiler_lehman(adjacency)` (default `max_iter`) gives two
+nodes the same colour iff colour refinement can never separate them. Covers both ways the loop ends: a
+round that changes nothing (then refinement is stable there) and the budget of `n` rounds (refinement is
+stable after at most `n-1` rounds: every unstable round creates a class). -/
+theorem wl_partition_eq_refinement {H : Type} {ops : HashOps H} (hx : ExactOps ops) (adj : List (List Nat))
+    (hwf : WFAdj adj) (u v : Nat) (hu : u < adj.length) (hv : v < adj.length) :
+    (colorWL ops adj none).getD u 0 = (colorWL ops adj none).getD v 0 ↔ Inseparable adj u v := by
+  have inv0 : WLInv adj 0 (tab adj.length fun _ => 0) := by
+    refine ⟨fun a b ha hb => by simp [ha, hb, sameClass], by simp, fun hn => ⟨0, hn, by simp [hn]⟩⟩
+  obtain ⟨k', _, hk', inv, hst⟩ :=
+    coloring_spec hx adj hwf adj.length 0 (tab adj.length fun _ => 0) true inv0 (fun h => Bool.noConfusion h)
+  have hstable : Stable adj k' := by
+    by_cases hlt : k' < 0 + adj.length
+    · exact hst hlt
+    · obtain ⟨j, hj, hsj⟩ := exists_stable adj (by omega)
+      have := stable_forever adj hwf j hsj (k' - j)
+      have e : j + (k' - j) = k' := by omega
+      rw [e] at this; exact this
+  have e : colorWL ops adj none = (coloring ops adj adj.length (tab adj.length fun _ => 0) true).1 := rfl
+  rw [e, inv.groups u v hu hv]
+  exact (inseparable_iff_of_stable adj hwf k' hstable u v hu hv).symm
+
+/-! ## the exact instance satisfies the hypotheses (non-vacuity; it is also what `c02.wl_exact` runs) -/
+
+/-- the exact instance (hash = sorted list of neighbour colours, lexicographic order) is an `ExactOps` -/
+theorem exactOps_exact : ExactOps exactOps where
+  hash_iff := sortNat_eq_iff
+  lt_irrefl := ltList_irrefl
+  lt_trans := ltList_trans
+  lt_total := ltList_total
+  apart_iff := by intro a b; simp [exactOps]
+
+/-- Non-vacuity on the house graph (0-1, 0-4, 1-2, 1-4, 2-3, 3-4): colours of the exact instance, and the
+refinement classes they coincide with. -/
+example : colorWL exactOps [[1, 4], [0, 2, 4], [1, 3], [2, 4], [0, 1, 3]] none = [1, 2, 0, 0, 2] := by decide
+example : WFAdj [[1, 4], [0, 2, 4], [1, 3], [2, 4], [0, 1, 3]] := wfAdj_of_check _ (by decide)
+
+/-! ## renumbering -/
+
+/-- `π` and `πinv` are inverse bijections of `{0..n-1}` -/
+structure IsPerm (n : Nat) (π πinv : Nat → Nat) : Prop where
+  lt : ∀ i, i < n → π i < n
+  lt_inv : ∀ i, i < n → πinv i < n
+  left : ∀ i, i < n → πinv (π i) = i
+  right : ∀ i, i < n → π (πinv i) = i
+
+/-- the adjacency lists of the renumbered graph: new node `π u` has the neighbours `π w`, `w ∈ adj u` -/
+def relabelAdj (π πinv : Nat → Nat) (adj : List (List Nat)) : List (List Nat) :=
+  tab adj.length fun i => (adj.getD (πinv i) []).map π
+
+theorem nbrs_relabel {n : Nat} {π πinv : Nat → Nat} (hp : IsPerm n π πinv) (adj : List (List Nat))
+    (hn : adj.length = n) (u : Nat) (hu : u < n) :
+    nbrs (relabelAdj π πinv adj) (π u) = (nbrs adj u).map π := by
+  unfold nbrs relabelAdj
+  rw [tab_getD]
+  simp [hn, hp.lt u hu, hp.left u hu]
+
+/-- **refinement is equivariant**: renumbering the nodes renumbers the refinement classes of every round. -/
+theorem refinement_equivariant {n : Nat} {π πinv : Nat → Nat} (hp : IsPerm n π πinv) (adj : List (List Nat))
+    (hn : adj.length = n) (hwf : WFAdj adj) :
+    ∀ k u v, u < n → v < n →
+      sameClass (relabelAdj π πinv adj) k (π u) (π v) = sameClass adj k u v := by
+  intro k
+  induction k with
+  | zero => intro u v _ _; rfl
+  | succ k ih =>
+    intro u v hu hv
+    apply Bool.eq_iff_iff.2
+    rw [sameClass_succ_iff, sameClass_succ_iff, ih u v hu hv]
+    have hlen : (relabelAdj π πinv adj).length = n := by simp [relabelAdj, hn]
+    rw [nbrs_relabel hp adj hn u hu, nbrs_relabel hp adj hn v hv]
+    have hcount : ∀ (w : Nat), w < n → ∀ l : List Nat, (∀ x ∈ l, x < n) →
+        (l.map π).countP (sameClass (relabelAdj π πinv adj) k (π w)) = l.countP (sameClass adj k w) := by
+      intro w hw l hl
+      rw [List.countP_map]
+      apply List.countP_congr
+      intro x hx
+      simp only [Function.comp]
+      rw [ih w x hw (hl x hx)]
+    have hwu : ∀ x ∈ nbrs adj u, x < n := fun x hx => hn ▸ hwf u (hn ▸ hu) x hx
+    have hwv : ∀ x ∈ nbrs adj v, x < n := fun x hx => hn ▸ hwf v (hn ▸ hv) x hx
+    constructor
+    · rintro ⟨h1, h2⟩
+      refine ⟨h1, fun w hw => ?_⟩
+      have hw' : w < n := hn ▸ hw
+      have := h2 (π w) (by rw [hlen]; exact hp.lt w hw')
+      rw [hcount w hw' _ hwu, hcount w hw' _ hwv] at this
+      exact this
+    · rintro ⟨h1, h2⟩
+      refine ⟨h1, fun w' hw' => ?_⟩
+      have hw'n : w' < n := hlen ▸ hw'
+      have hw : πinv w' < n := hp.lt_inv w' hw'n
+      have := h2 (πinv w') (by rw [hn]; exact hw)
+      rw [← hcount (πinv w') hw _ hwu, ← hcount (πinv w') hw _ hwv, hp.right w' hw'n] at this
+      exact this
+
+theorem wfAdj_relabel {n : Nat} {π πinv : Nat → Nat} (hp : IsPerm n π πinv) (adj : List (List Nat))
+    (hn : adj.length = n) (hwf : WFAdj adj) : WFAdj (relabelAdj π πinv adj) := by
+  intro u hu w hw
+  have hlen : (relabelAdj π πinv adj).length = n := by simp [relabelAdj, hn]
+  rw [hlen] at hu ⊢
+  have hu' : u = π (πinv u) := (hp.right u hu).symm
+  rw [hu', nbrs_relabel hp adj hn (πinv u) (hp.lt_inv u hu)] at hw
+  obtain ⟨x, hx, rfl⟩ := List.mem_map.1 hw
+  exact hp.lt x (hn ▸ hwf (πinv u) (hn ▸ hp.lt_inv u hu) x hx)
+
+/-- **wl_partition_equivariant**. The Weisfeiler-Lehman colouring of a renumbered graph groups the
+renumbered nodes exactly as the colouring of the original graph groups the original nodes. -/
+theorem wl_partition_equivariant {H : Type} {ops : HashOps H} (hx : ExactOps ops) {n : Nat} {π πinv : Nat → Nat}
+    (hp : IsPerm n π πinv) (adj : List (List Nat)) (hn : adj.length = n) (hwf : WFAdj adj)
+    (u v : Nat) (hu : u < n) (hv : v < n) :
+    ((colorWL ops (relabelAdj π πinv adj) none).getD (π u) 0 = (colorWL ops (relabelAdj π πinv adj) none).getD (π v) 0) ↔
+    ((colorWL ops adj none).getD u 0 = (colorWL ops adj none).getD v 0) := by
+  have hlen : (relabelAdj π πinv adj).length = n := by simp [relabelAdj, hn]
+  rw [wl_partition_eq_refinement hx _ (wfAdj_relabel hp adj hn hwf) (π u) (π v)
+        (by rw [hlen]; exact hp.lt u hu) (by rw [hlen]; exact hp.lt v hv),
+      wl_partition_eq_refinement hx adj hwf u v (hn ▸ hu) (hn ▸ hv)]
+  unfold Inseparable
+  constructor
+  · intro h k; rw [← refinement_equivariant hp adj hn hwf k u v hu hv]; exact h k
+  · intro h k; rw [refinement_equivariant hp adj hn hwf k u v hu hv]; exact h k
+
+/-! ## hop distances (model of C10) -/
+
+/-- walks are equivariant: a renumbered graph with renumbered sources has the renumbered walks -/
+theorem walk_equivariant {n : Nat} {π πinv : Nat → Nat} (hp : IsPerm n π πinv)
+    (edge edge' : Nat → Nat → Bool) (src src' : Nat → Bool)
+    (he : ∀ i j, i < n → j < n → edge' (π i) (π j) = edge i j)
+    (hs : ∀ i, i < n → src' (π i) = src i) :
+    ∀ d v, v < n → (Path.Walk n edge' src' d (π v) ↔ Path.Walk n edge src d v) := by
+  intro d
+  induction d with
+  | zero =>
+    intro v hv
+    rw [Path.Walk.zero_iff, Path.Walk.zero_iff, hs v hv]
+    constructor
+    · rintro ⟨_, h⟩; exact ⟨hv, h⟩
+    · rintro ⟨_, h⟩; exact ⟨hp.lt v hv, h⟩
+  | succ d ih =>
+    intro v hv
+    rw [Path.Walk.succ_iff, Path.Walk.succ_iff]
+    constructor
+    · rintro ⟨_, u', hw, he'⟩
+      have hu' : u' < n := hw.lt
+      have e : u' = π (πinv u') := (hp.right u' hu').symm
+      rw [e] at hw he'
+      refine ⟨hv, πinv u', (ih _ (hp.lt_inv u' hu')).1 hw, ?_⟩
+      rw [← he _ _ (hp.lt_inv u' hu') hv]; exact he'
+    · rintro ⟨_, u, hw, he'⟩
+      refine ⟨hp.lt v hv, π u, (ih u hw.lt).2 hw, ?_⟩
+      rw [he u v hw.lt hv]; exact he'
+
+/-- **dist_equivariant**. Exact hop-distance vectors of a graph and of its renumbered copy (with renumbered
+sources) are renumberings of each other: `dist' (π v) = dist v`. With `C10.bfs_exact` this is the
+equivariance of `get_distances`, for every graph and every permutation. -/
+theorem dist_equivariant {n : Nat} {π πinv : Nat → Nat} (hp : IsPerm n π πinv)
+    (edge edge' : Nat → Nat → Bool) (src src' : Nat → Bool)
+    (he : ∀ i j, i < n → j < n → edge' (π i) (π j) = edge i j)
+    (hs : ∀ i, i < n → src' (π i) = src i)
+    (dist dist' : List Int) (hd : Path.Exact n edge src dist) (hd' : Path.Exact n edge' src' dist')
+    (v : Nat) (hv : v < n) : dist'.getD (π v) (-1) = dist.getD v (-1) := by
+  have hw := walk_equivariant hp edge edge' src src' he hs
+  have hdist : ∀ d, Path.IsDist n edge' src' (π v) d ↔ Path.IsDist n edge src v d := by
+    intro d
+    unfold Path.IsDist
+    rw [hw d v hv]
+    constructor
+    · rintro ⟨h1, h2⟩; exact ⟨h1, fun d' hd' h => h2 d' hd' ((hw d' v hv).2 h)⟩
+    · rintro ⟨h1, h2⟩; exact ⟨h1, fun d' hd' h => h2 d' hd' ((hw d' v hv).1 h)⟩
+  rcases hd.2 v hv with ⟨d, hdv, hdd⟩ | ⟨hm, hun⟩
+  · rw [hdv]
+    exact ((C10.exact_entry hd' (hp.lt v hv)).2 d).2 ((hdist d).2 hdd)
+  · rw [hm]
+    apply ((C10.exact_entry hd' (hp.lt v hv)).1).2
+    intro d hwd
+    exact hun d ((hw d v hv).1 hwd)
+
 end SkNet.C02
